@@ -57,3 +57,13 @@ Theorem C19_serializer_content_is_serialized_the_same_way : forall s rendered sp
   ser_node s rendered spanning (Elem ty a m cs) = DElem ty a (ser_fragment s rendered spanning cs).
 Proof. exact ser_node_elem. Qed.
 Print Assumptions C19_serializer_content_is_serialized_the_same_way.
+
+(* for instance: "a" in em, "b" in em + strong, "c" plain - the em wrapper stays open across the first two nodes *)
+From Coq Require Import NArith.
+From PM Require Properties.C01.
+Example C19_serializer_example :
+  let em := {| m_ty := 0; m_attrs := [] |} in let strong := {| m_ty := 1; m_attrs := [] |} in
+  ser_fragment Properties.C01.ex_schema (fun _ => true) (fun _ => true)
+    [Text [97%N] [em]; Text [98%N] [em; strong]; Text [99%N] []]
+  = [DMark em [DText [97%N]; DMark strong [DText [98%N]]]; DText [99%N]].
+Proof. vm_compute. reflexivity. Qed.
